@@ -503,6 +503,55 @@ static void bad()
   hxEndLine();
 }
 
+// What the model assumes of `Callback::MemberFuncPtr` (ids with decidable equality, used as Map keys), checked on the
+// pointers this program uses: the 10 signals of `Em` and the 20 slots of `Li`.  (a) every pointer to member function has
+// the size of `MemberFuncPtr::ptr` (the constructor copies sizeof(ptr) bytes); (b) `==` agrees with identity of the member
+// and with `memcmp == 0` of the stored bytes, and exactly one of `<`, `==`, `>` holds for every pair (Map needs a strict
+// total order that is compatible with `==`); (c) distinct members give distinct pointers although the signal bodies are
+// all empty.  Output: `mfp ok sigs=10 slots=20` or the first failing pair.
+static void mfpProbe()
+{
+  Callback::MemberFuncPtr p[NG + 2 * NG];
+  int n = 0;
+#define X(K) static_assert(sizeof(&Em::sig##K) == sizeof(((Callback::MemberFuncPtr*)0)->ptr), "size of a signal pointer"); \
+  static_assert(sizeof(&Li::slot0_##K) == sizeof(((Callback::MemberFuncPtr*)0)->ptr), "size of a slot pointer"); \
+  p[n++] = Callback::MemberFuncPtr(&Em::sig##K);
+  FOR_ARITIES(X)
+#undef X
+#define X(K) p[n++] = Callback::MemberFuncPtr(&Li::slot0_##K); p[n++] = Callback::MemberFuncPtr(&Li::slot1_##K);
+  FOR_ARITIES(X)
+#undef X
+  for(int i = 0; i < n; ++i)
+    for(int j = 0; j < n; ++j)
+    {
+      // signals and slots are members of different classes; the library never compares a signal with a slot
+      if((i < NG) != (j < NG))
+        continue;
+      bool eq = p[i] == p[j], lt = p[i] < p[j], gt = p[i] > p[j];
+      bool same = memcmp(&p[i].ptr, &p[j].ptr, sizeof(p[i].ptr)) == 0;
+      // a second conversion of the same member must give the same bytes
+      Callback::MemberFuncPtr again = i < NG ? sigPtr(i) : p[i];
+      if(eq != (i == j) || same != (i == j) || (eq ? (lt || gt) : (lt == gt)) || lt != (p[j] > p[i]) || !(again == p[i]))
+      {
+        printf("mfp FAIL i=%d j=%d eq=%d memcmp0=%d lt=%d gt=%d", i, j, (int)eq, (int)same, (int)lt, (int)gt);
+        hxEndLine();
+        return;
+      }
+    }
+  // transitivity of `<` over the signals and over the slots (a strict total order)
+  for(int i = 0; i < n; ++i)
+    for(int j = 0; j < n; ++j)
+      for(int k = 0; k < n; ++k)
+        if((i < NG) == (j < NG) && (j < NG) == (k < NG) && p[i] < p[j] && p[j] < p[k] && !(p[i] < p[k]))
+        {
+          printf("mfp FAIL order not transitive %d %d %d", i, j, k);
+          hxEndLine();
+          return;
+        }
+  printf("mfp ok sigs=%d slots=%d", NG, n - NG);
+  hxEndLine();
+}
+
 int main()
 {
   static HxLine l;
@@ -518,6 +567,11 @@ int main()
         refArgs(v);
       else
         bad();
+      continue;
+    }
+    if(hxIs(l, "mfp", 0))
+    {
+      mfpProbe();
       continue;
     }
     if(hxIs(l, "reset", 0) || hxIs(l, "reuse", 0))
